@@ -1068,10 +1068,7 @@ pub fn eval(case: &str) -> Out {
         "varint" | "vecu8" | "vecvec" | "key" => eval_lowlevel(kind, &w),
         "script" if w.len() == 3 => {
             let b = unhex_dash(w[2]).unwrap_or_default();
-            // of C16's line only the two instruction streams are compared here: the template / from_script part belongs to C16
-            let mut o = eval_via(format!("C16 script {}", w[2]), || script_accessors(&Script::from(b.clone())), b.len(), crate::c16::eval);
-            if let Some(i) = o.result.find(" I ") { o.result = format!("ok{}", &o.result[i..]); }
-            o
+            eval_via(format!("C16 script {}", w[2]), || script_accessors(&Script::from(b.clone())), b.len(), crate::c16::eval)
         }
         "rint" if w.len() == 3 => eval_via(format!("C16 rint {}", w[2]), || {}, w[2].len(), crate::c16::eval),
         "addr" if w.len() == 3 => {
